@@ -697,6 +697,23 @@ class CallMixin(object):
             o = self.adapt(o, List(o.items[0].ty))
         return [(st, NONEV, o)]
 
+    def m_list_sort(self, recv, args, kw, st, node):
+        """list.sort(key=..., reverse=...): the list becomes SOME permutation of itself (same length, same elements, and - stated through a
+        bijection of positions - the same multiplicities).  Which one is not modelled: an over-approximation of every key function."""
+        if args or any(k not in ("key", "reverse") for k in kw):
+            raise OutsideSubset("list.sort arguments")
+        st = st.copy()
+        r = fresh(recv.ty, "sorted")
+        n = core.llen(recv)
+        perm = z3.Function(CTX.fresh("perm"), z3.IntSort(), z3.IntSort())
+        inv = z3.Function(CTX.fresh("perm_inv"), z3.IntSort(), z3.IntSort())
+        st.assume(core.llen(r) == n,
+                  core.forall_int(0, n, lambda j: z3.And(perm(j) >= 0, perm(j) < n, inv(perm(j)) == j,
+                                                         z3.Select(core.larr(r), j) == z3.Select(core.larr(recv), perm(j)))),
+                  core.forall_int(0, n, lambda j: z3.And(inv(j) >= 0, inv(j) < n, perm(inv(j)) == j)))
+        self.notes.append("list.sort is an arbitrary permutation of the list (the key function is not modelled)")
+        return [(st, NONEV, r)]
+
     def m_list_reverse(self, recv, args, kw, st, node):
         st = st.copy()
         r = self.reversed_list(recv, st)
